@@ -1268,4 +1268,275 @@ theorem toMv_polynomialDifferentiate {D N : Nat} (hD : D ≤ 63) (hN : N ≤ D) 
 
 end
 
+
+section
+variable {K : Type} [CommRing K] [DecidableEq K]
+
+theorem bracket_zero_right (P : MvPolynomial (Fin 6) K) : bracket P 0 = 0 := by
+  unfold bracket; simp
+
+theorem bracket_zero_left (Q : MvPolynomial (Fin 6) K) : bracket 0 Q = 0 := by
+  unfold bracket; simp
+
+/-- one `(d1,d2)` step of `_polynomial_poisson_bracket` -/
+theorem pbracket_step {D N : Nat} (hD : D ≤ 63) (hN : N + 2 ≤ D) (σ : Nat → List (List Nat))
+    (hσ : ∀ n, (σ n).flatten.Perm (List.range n)) (P Q R : GPoly K) (hP : WF P N) (hQ : WF Q N) (hR : WF R N)
+    (d1 d2 : Nat) (h1 : d1 ≤ N) (h2 : d2 ≤ N) :
+    let R' := if !anyNZ (Q.getD d2 []) then R else
+      if d1 + d2 < 2 ∨ d1 + d2 - 2 > N then R else
+      let t := polyPoisson (mkTables D) σ (P.getD d1 []) d1 (Q.getD d2 []) d2
+      let rd := d1 + d2 - 2
+      if t.length = (R.getD rd []).length then R.set rd (polyAdd (R.getD rd []) t) else R
+    WF R' N ∧ ∀ r, r ≤ N → toMv (mkTables D) r (R'.getD r []) = toMv (mkTables D) r (R.getD r [])
+      + (if d1 + d2 = r + 2 then bracket (toMv (mkTables D) d1 (P.getD d1 [])) (toMv (mkTables D) d2 (Q.getD d2 [])) else 0) := by
+  intro R'
+  by_cases hz : anyNZ (Q.getD d2 []) = false
+  · have hR' : R' = R := by simp only [R']; rw [if_pos (by rw [hz]; rfl)]
+    rw [hR']
+    refine ⟨hR, fun r _ => ?_⟩
+    rw [toMv_of_anyNZ_false _ d2 hz, bracket_zero_right]; simp
+  · have hnz : ¬ (!anyNZ (Q.getD d2 [])) = true := by revert hz; cases anyNZ (Q.getD d2 []) <;> simp
+    by_cases hw : d1 + d2 < 2 ∨ d1 + d2 - 2 > N
+    · have hR' : R' = R := by simp only [R']; rw [if_neg hnz, if_pos hw]
+      rw [hR']
+      refine ⟨hR, fun r hr => ?_⟩
+      rw [if_neg (by omega), add_zero]
+    · have hlp := hP.2 d1 h1
+      have hlq := hQ.2 d2 h2
+      have hrd : d1 + d2 - 2 ≤ N := by omega
+      have hlr := hR.2 (d1 + d2 - 2) hrd
+      have hb := toMv_polyPoisson hD (by omega : d1 + d2 ≤ D) _ _ hlp hlq σ hσ
+      by_cases hlen : (polyPoisson (mkTables D) σ (P.getD d1 []) d1 (Q.getD d2 []) d2).length = (R.getD (d1 + d2 - 2) []).length
+      · have hR' : R' = R.set (d1 + d2 - 2) (polyAdd (R.getD (d1 + d2 - 2) [])
+            (polyPoisson (mkTables D) σ (P.getD d1 []) d1 (Q.getD d2 []) d2)) := by
+          simp only [R']; rw [if_neg hnz, if_neg hw, if_pos hlen]
+        rw [hR']
+        have hi : d1 + d2 - 2 < R.length := by rw [hR.1]; omega
+        constructor
+        · constructor
+          · rw [List.length_set]; exact hR.1
+          · intro d hd
+            rw [getD_set_list _ _ _ _ _ hi]
+            split
+            · rename_i h; subst h; rw [length_polyAdd, hlen, Nat.min_self]; exact hlr
+            · exact hR.2 d hd
+        · intro r hr
+          rw [getD_set_list _ _ _ _ _ hi]
+          by_cases h : r = d1 + d2 - 2
+          · subst h
+            rw [if_pos rfl, if_pos (by omega), toMv_polyAdd _ _ _ _ hlen.symm, hb]
+          · rw [if_neg h, if_neg (by omega), add_zero]
+      · have hR' : R' = R := by simp only [R']; rw [if_neg hnz, if_neg hw, if_neg hlen]
+        rw [hR']
+        refine ⟨hR, fun r hr => ?_⟩
+        -- the shape guard can only fail for a constant operand, whose bracket is zero
+        have h0 : d1 = 0 ∨ d2 = 0 := by
+          by_contra hc
+          apply hlen
+          rw [length_polyPoisson hD (by omega) (by omega) (by omega) _ _ hlp hlq σ hσ, hlr]
+        have hzero : polyPoisson (mkTables D) σ (P.getD d1 []) d1 (Q.getD d2 []) d2 = zeros (psi 6 0) := by
+          unfold polyPoisson; rw [if_pos h0]
+        rw [hzero, toMv_zeros] at hb
+        rw [← hb]; simp
+
+theorem pbracket_inner {D N : Nat} (hD : D ≤ 63) (hN : N + 2 ≤ D) (σ : Nat → List (List Nat))
+    (hσ : ∀ n, (σ n).flatten.Perm (List.range n)) (P Q R : GPoly K) (hP : WF P N) (hQ : WF Q N) (hR : WF R N)
+    (d1 : Nat) (h1 : d1 ≤ N) : ∀ n, n ≤ N + 1 →
+    let Rn := (List.range n).foldl (fun R d2 =>
+      if !anyNZ (Q.getD d2 []) then R else
+      if d1 + d2 < 2 ∨ d1 + d2 - 2 > N then R else
+      let t := polyPoisson (mkTables D) σ (P.getD d1 []) d1 (Q.getD d2 []) d2
+      let rd := d1 + d2 - 2
+      if t.length = (R.getD rd []).length then R.set rd (polyAdd (R.getD rd []) t) else R) R
+    WF Rn N ∧ ∀ r, r ≤ N → toMv (mkTables D) r (Rn.getD r []) = toMv (mkTables D) r (R.getD r [])
+      + (if d1 ≤ r + 2 ∧ r + 2 - d1 < n then
+          bracket (toMv (mkTables D) d1 (P.getD d1 [])) (toMv (mkTables D) (r + 2 - d1) (Q.getD (r + 2 - d1) [])) else 0) := by
+  intro n
+  induction n with
+  | zero => intro _; simp; exact hR
+  | succ n ih =>
+    intro hn
+    have ih' := ih (by omega)
+    simp only at ih' ⊢
+    rw [List.range_succ, List.foldl_append]
+    simp only [List.foldl_cons, List.foldl_nil]
+    have st := pbracket_step hD hN σ hσ P Q _ hP hQ ih'.1 d1 n h1 (by omega)
+    simp only at st
+    refine ⟨st.1, fun r hr => ?_⟩
+    rw [st.2 r hr, ih'.2 r hr, add_assoc]
+    congr 1
+    by_cases h : d1 + n = r + 2
+    · have e : r + 2 - d1 = n := by omega
+      rw [if_pos h, if_neg (by omega), if_pos (by omega), zero_add, e]
+    · rw [if_neg h, add_zero]
+      by_cases h2 : d1 ≤ r + 2 ∧ r + 2 - d1 < n
+      · rw [if_pos h2, if_pos (by omega)]
+      · rw [if_neg h2, if_neg (by omega)]
+
+theorem pbracket_outer {D N : Nat} (hD : D ≤ 63) (hN : N + 2 ≤ D) (σ : Nat → List (List Nat))
+    (hσ : ∀ n, (σ n).flatten.Perm (List.range n)) (P Q : GPoly K) (hP : WF P N) (hQ : WF Q N) : ∀ n, n ≤ N + 1 →
+    let Rn := (List.range n).foldl (fun R d1 =>
+      if !anyNZ (P.getD d1 []) then R else
+      (List.range Q.length).foldl (fun R d2 =>
+        if !anyNZ (Q.getD d2 []) then R else
+        if d1 + d2 < 2 ∨ d1 + d2 - 2 > N then R else
+        let t := polyPoisson (mkTables D) σ (P.getD d1 []) d1 (Q.getD d2 []) d2
+        let rd := d1 + d2 - 2
+        if t.length = (R.getD rd []).length then R.set rd (polyAdd (R.getD rd []) t) else R) R) (polynomialZeroList N)
+    WF Rn N ∧ ∀ r, r ≤ N → toMv (mkTables D) r (Rn.getD r [])
+      = ∑ d1 ∈ Finset.range n, (if d1 ≤ r + 2 ∧ r + 2 - d1 ≤ N then
+          bracket (toMv (mkTables D) d1 (P.getD d1 [])) (toMv (mkTables D) (r + 2 - d1) (Q.getD (r + 2 - d1) [])) else 0) := by
+  intro n
+  induction n with
+  | zero =>
+    intro _
+    simp only [List.range_zero, List.foldl_nil, Finset.range_zero, Finset.sum_empty]
+    refine ⟨WF_zeroList N, fun r hr => ?_⟩
+    rw [getD_zeroList N r hr, toMv_zeros]
+  | succ n ih =>
+    intro hn
+    have ih' := ih (by omega)
+    simp only at ih' ⊢
+    rw [List.range_succ, List.foldl_append]
+    simp only [List.foldl_cons, List.foldl_nil]
+    by_cases hz : anyNZ (P.getD n []) = false
+    · rw [if_pos (by rw [hz]; rfl)]
+      refine ⟨ih'.1, fun r hr => ?_⟩
+      rw [ih'.2 r hr, Finset.sum_range_succ, toMv_of_anyNZ_false _ n hz, bracket_zero_left]; simp
+    · have hnz : ¬ (!anyNZ (P.getD n [])) = true := by revert hz; cases anyNZ (P.getD n []) <;> simp
+      rw [if_neg hnz]
+      have hQl := hQ.1
+      have inn := pbracket_inner hD hN σ hσ P Q _ hP hQ ih'.1 n (by omega) Q.length (by omega)
+      simp only at inn
+      refine ⟨inn.1, fun r hr => ?_⟩
+      rw [inn.2 r hr, ih'.2 r hr, Finset.sum_range_succ]
+      congr 1
+      by_cases h : n ≤ r + 2 ∧ r + 2 - n ≤ N
+      · rw [if_pos h, if_pos ⟨h.1, by omega⟩]
+      · rw [if_neg h, if_neg (by omega)]
+
+/-- `_polynomial_poisson_bracket`: block `r` of the result is `Σ_{d1+d2 = r+2} {P[d1], Q[d2]}` -/
+theorem toMv_polynomialPoissonBracket {D N : Nat} (hD : D ≤ 63) (hN : N + 2 ≤ D) (σ : Nat → List (List Nat))
+    (hσ : ∀ n, (σ n).flatten.Perm (List.range n)) (P Q : GPoly K) (hP : WF P N) (hQ : WF Q N) :
+    WF (polynomialPoissonBracket (mkTables D) σ P Q N) N ∧ ∀ r, r ≤ N →
+      toMv (mkTables D) r ((polynomialPoissonBracket (mkTables D) σ P Q N).getD r [])
+        = ∑ d1 ∈ Finset.range (N + 1), (if d1 ≤ r + 2 ∧ r + 2 - d1 ≤ N then
+          bracket (toMv (mkTables D) d1 (P.getD d1 [])) (toMv (mkTables D) (r + 2 - d1) (Q.getD (r + 2 - d1) [])) else 0) := by
+  have := pbracket_outer hD hN σ hσ P Q hP hQ (N + 1) le_rfl
+  simp only at this
+  unfold polynomialPoissonBracket
+  rw [hP.1]
+  exact this
+
+end
+
+
+section
+variable {K : Type} [Field K] [CharZero K] [DecidableEq K]
+
+/-- one degree of `_polynomial_integrate` -/
+theorem integrate_step {D N : Nat} (_hD : D ≤ 63) (_hN : N + 1 ≤ D) (P : GPoly K) (hP : WF P N) (v : Fin 6) (R : GPoly K)
+    (hR : WF R (N + 1)) (n : Nat) (hn : n ≤ N) :
+    let R' := (let dres := n + 1
+      if n < P.length ∧ anyNZ (P.getD n []) then
+        let t := polyIntegrate (mkTables D) (P.getD n []) v.val n
+        if dres < R.length ∧ (R.getD dres []).length = t.length then R.set dres (polyAdd (R.getD dres []) t) else R
+      else R)
+    WF R' (N + 1) ∧ ∀ r, r ≤ N + 1 → toMv (mkTables D) r (R'.getD r [])
+      = toMv (mkTables D) r (R.getD r []) + (if r = n + 1 ∧ anyNZ (P.getD n []) = true then
+          toMv (mkTables D) (n + 1) (polyIntegrate (mkTables D) (P.getD n []) v.val n) else 0) := by
+  intro R'
+  by_cases hz : anyNZ (P.getD n []) = true
+  · have hlt := length_polyIntegrate (mkTables D) (P.getD n []) v.val n
+    have hlr := hR.2 (n + 1) (by omega)
+    have hR' : R' = R.set (n + 1) (polyAdd (R.getD (n + 1) []) (polyIntegrate (mkTables D) (P.getD n []) v.val n)) := by
+      simp only [R']
+      rw [if_pos ⟨by rw [hP.1]; omega, hz⟩, if_pos ⟨by rw [hR.1]; omega, by rw [hlr, hlt]⟩]
+    rw [hR']
+    have hi : n + 1 < R.length := by rw [hR.1]; omega
+    constructor
+    · constructor
+      · rw [List.length_set]; exact hR.1
+      · intro d hd
+        rw [getD_set_list _ _ _ _ _ hi]
+        split
+        · rename_i h; subst h; rw [length_polyAdd, hlr, hlt, Nat.min_self]
+        · exact hR.2 d hd
+    · intro r hr
+      rw [getD_set_list _ _ _ _ _ hi]
+      by_cases h : r = n + 1
+      · subst h
+        rw [if_pos rfl, if_pos ⟨rfl, hz⟩, toMv_polyAdd _ _ _ _ (by rw [hlr, hlt])]
+      · rw [if_neg h, if_neg (by intro hh; exact h hh.1), add_zero]
+  · have hR' : R' = R := by
+      simp only [R']
+      rw [if_neg (by intro h; exact hz h.2)]
+    rw [hR']
+    refine ⟨hR, fun r _ => ?_⟩
+    rw [if_neg (by intro hh; exact hz hh.2), add_zero]
+
+theorem integrate_fold {D N : Nat} (hD : D ≤ 63) (hN : N + 1 ≤ D) (P : GPoly K) (hP : WF P N) (v : Fin 6) : ∀ n, n ≤ N + 1 →
+    let Rn := (List.range n).foldl (fun R dorig =>
+      let dres := dorig + 1
+      if dorig < P.length ∧ anyNZ (P.getD dorig []) then
+        let t := polyIntegrate (mkTables D) (P.getD dorig []) v.val dorig
+        if dres < R.length ∧ (R.getD dres []).length = t.length then R.set dres (polyAdd (R.getD dres []) t) else R
+      else R) (polynomialZeroList (N + 1))
+    WF Rn (N + 1) ∧ ∀ r, r ≤ N + 1 → toMv (mkTables D) r (Rn.getD r [])
+      = if 1 ≤ r ∧ r - 1 < n ∧ anyNZ (P.getD (r - 1) []) = true then
+          toMv (mkTables D) r (polyIntegrate (mkTables D) (P.getD (r - 1) []) v.val (r - 1)) else 0 := by
+  intro n
+  induction n with
+  | zero =>
+    intro _
+    simp only [List.range_zero, List.foldl_nil]
+    refine ⟨WF_zeroList _, fun r hr => ?_⟩
+    rw [getD_zeroList _ r hr, toMv_zeros]; simp
+  | succ n ih =>
+    intro hn
+    have ih' := ih (by omega)
+    simp only at ih' ⊢
+    rw [List.range_succ, List.foldl_append]
+    simp only [List.foldl_cons, List.foldl_nil]
+    have st := integrate_step hD hN P hP v _ ih'.1 n (by omega)
+    simp only at st
+    refine ⟨st.1, fun r hr => ?_⟩
+    rw [st.2 r hr, ih'.2 r hr]
+    by_cases h : r = n + 1
+    · subst h
+      have e : n + 1 - 1 = n := by omega
+      rw [if_neg (by omega), zero_add, e]
+      by_cases hz : anyNZ (P.getD n []) = true
+      · rw [if_pos ⟨rfl, hz⟩, if_pos ⟨by omega, by omega, hz⟩]
+      · rw [if_neg (by intro hh; exact hz hh.2), if_neg (by intro hh; exact hz hh.2.2)]
+    · have hne : ¬ (r = n + 1 ∧ anyNZ (P.getD n []) = true) := fun hh => h hh.1
+      simp only [if_neg hne, add_zero]
+      by_cases h2 : 1 ≤ r ∧ r - 1 < n ∧ anyNZ (P.getD (r - 1) []) = true
+      · rw [if_pos h2, if_pos ⟨h2.1, by omega, h2.2.2⟩]
+      · rw [if_neg h2, if_neg (by intro hh; exact h2 ⟨hh.1, by omega, hh.2.2⟩)]
+
+/-- `_polynomial_integrate`: the result has `max_deg+2` well-formed blocks, its constant block is zero and `∂/∂x_v` of its
+block `r+1` is block `r` of the input -/
+theorem toMv_polynomialIntegrate {D N : Nat} (hD : D ≤ 63) (hN : N + 1 ≤ D) (P : GPoly K) (hP : WF P N) (v : Fin 6) :
+    WF (polynomialIntegrate (mkTables D) P v.val N) (N + 1) ∧
+    toMv (mkTables D) 0 ((polynomialIntegrate (mkTables D) P v.val N).getD 0 []) = 0 ∧
+    ∀ r, r ≤ N → pderiv v (toMv (mkTables D) (r + 1) ((polynomialIntegrate (mkTables D) P v.val N).getD (r + 1) []))
+      = toMv (mkTables D) r (P.getD r []) := by
+  have := integrate_fold hD hN P hP v (N + 1) le_rfl
+  simp only at this
+  unfold polynomialIntegrate
+  refine ⟨this.1, ?_, fun r hr => ?_⟩
+  · rw [this.2 0 (by omega), if_neg (by omega)]
+  · rw [this.2 (r + 1) (by omega)]
+    have e : r + 1 - 1 = r := by omega
+    rw [e]
+    by_cases hz : anyNZ (P.getD r []) = true
+    · rw [if_pos ⟨by omega, by omega, hz⟩]
+      exact pderiv_toMv_polyIntegrate hD (by omega) _ (hP.2 r hr) v
+    · rw [if_neg (by intro hh; exact hz hh.2.2), map_zero]
+      have : anyNZ (P.getD r []) = false := by revert hz; cases anyNZ (P.getD r []) <;> simp
+      rw [toMv_of_anyNZ_false _ _ this]
+
+end
+
 end HitenModel.C06
